@@ -540,6 +540,13 @@ class Interp:
             for nm in _loop_assigned(s.body):
                 if nm in s1.env:
                     s1.env[nm] = ('phi', site, nm, s1.env[nm])
+            for nm in _loop_mutated(s.body):
+                o = s1.env.get(nm)
+                if o is not None and o[0] == 'obj' and \
+                        '$elems' in s1.objs.get(o, {}):
+                    # other iterations may have added elements
+                    s1.objs[o]['$elems'] = s1.objs[o]['$elems'] + (
+                        ('splat', ('phi', site, nm, T.NONE)),)
             elem = ('lv', site, it)
             for s3 in self.assign(s.target, elem, s1, s, loopvar=True):
                 for s4, flow in self.block(s.body, s3):
@@ -731,6 +738,14 @@ class Interp:
         """Fork on an evaluated condition; conjunctions and disjunctions
         (chained comparisons, value-context boolean operators) are split
         into their atoms so that every assumption is atomic."""
+        if c[0] == 'truth' and c[1][0] == 'obj' and \
+                '$elems' in st.objs.get(c[1], {}):
+            # a list built on this path: its emptiness is known
+            el = st.objs[c[1]]['$elems']
+            if any(x[0] != 'splat' for x in el):
+                return [(st, True)]
+            if not el:
+                return [(st, False)]
         if c[0] == 'c':
             return [(st, bool(c[1]))]
         if c[0] in ('and', 'or'):
@@ -800,6 +815,11 @@ class Interp:
             return [(st, st.env[e.id])]
         try:
             v = self.m.fold(e, st.module, st.cls)
+            if isinstance(v, (frozenset, set, dict)):
+                # named tables stay symbolic (stable, readable terms)
+                r0 = self.m.resolve_name(st.module, e.id)
+                if r0 and r0[0] == 'const':
+                    return [(st, ('global', r0[2], e.id))]
             return [(st, T.C(_freeze(v)))]
         except NotConst:
             pass
@@ -1617,6 +1637,24 @@ class Interp:
                           value=val)
                 res.append((s2, val))
         return res
+
+
+def _loop_mutated(stmts):
+    """Names whose list/set value is extended inside a loop body."""
+    out = set()
+    stack = list(stmts)
+    while stack:
+        n = stack.pop()
+        if isinstance(n, (ast.FunctionDef, ast.AsyncFunctionDef,
+                          ast.ClassDef, ast.Lambda)):
+            continue
+        if isinstance(n, ast.Call) and isinstance(n.func, ast.Attribute) \
+                and n.func.attr in ('append', 'extend', 'add', 'insert',
+                                    'update') and \
+                isinstance(n.func.value, ast.Name):
+            out.add(n.func.value.id)
+        stack.extend(ast.iter_child_nodes(n))
+    return out
 
 
 def _loop_assigned(stmts):
